@@ -22,7 +22,12 @@ typedef struct vec_off { unsigned long d[VMAXO]; unsigned long n; } vec_off;
 typedef struct offpair { unsigned long first; unsigned long second; } offpair;
 typedef struct vec_pair { offpair d[VMAXO]; unsigned long n; } vec_pair;
 extern int g_par[NN]; extern unsigned long g_off[NN]; extern unsigned g_n;
-extern _Bool g_claims_children[NN];   /* the abbreviation's has-children flag: true for every DIE that has children, arbitrary for the others */      /* g_n <= NN DIEs in play */
+extern _Bool g_claims_children[NN];
+#ifdef DW_MODEL_ATTRS
+/* optional attribute layer: DIE i may carry DW_AT_sibling (pointing, as DWARF requires, at its next sibling) and may name another
+   DIE as its DW_AT_abstract_origin (-1: none) */
+extern _Bool g_has_sibling_attr[NN]; extern int g_origin[NN];
+#endif   /* the abbreviation's has-children flag: true for every DIE that has children, arbitrary for the others */      /* g_n <= NN DIEs in play */
 #ifdef VERIF_CBMC
 #define M_ASSERT(c, msg) __CPROVER_assert(c, "libdw model: " msg)
 #else
